@@ -722,7 +722,7 @@ func (e *Env) callExpr(x ECall) Term {
 		argn(1)
 		key := exprString(x.Args[0])
 		return fv.ghostTerm(e.st, "log."+key+".n", SMath)
-	case "fabs", "fisnan", "fisinf", "flt", "fle", "feq", "f32", "f64", "fconst":
+	case "fabs", "fisnan", "fisinf", "flt", "fle", "feq", "f32", "f64", "fconst", "ftoi64":
 		return e.floatBuiltin(x)
 	case "callseq":
 		// callseq(K, i): position of the i-th logged call of K in the global order of logged calls
@@ -1428,6 +1428,9 @@ func (e *Env) floatBuiltin(x ECall) Term {
 			fv.declareFun(fn, ss, "Bool")
 		}
 		return Term{S: app(fn, a.S, b.S), Sort: SBool}
+	case "ftoi64":
+		// the conversion int64(x) of the code (truncation toward zero; uninterpreted outside `flag fp`)
+		return fv.floatOp("fconv", types.Typ[types.Int64], arg(0))
 	case "f32", "f64":
 		t := arg(0)
 		w := 32
